@@ -22,6 +22,7 @@ def probes_for(n):
 
 class C09(Prop):
     id = "C09"
+    refusal_family = "circuit"
     trace_module = "TraceCircuit"
     trace_cfg = "TraceC09.cfg"
     backends = ("py", "torch")
